@@ -35,6 +35,7 @@ type Interp struct {
 	MonitorOn bool
 	consts map[*ssa.Const]Value
 	natives map[*Obj]any
+	onces   map[*Obj]bool
 	syncMaps map[*Obj]*syncMapModel
 	memoResults map[string]Value
 	MonitorMode int // 1: value-changing writes (C05); 2: any write (C06)
@@ -493,6 +494,13 @@ func (in *Interp) callFunctionBody(fn *ssa.Function, args []Value) Value {
 	}
 	if fn.Blocks == nil {
 		abortf("unsupported external function %s", name)
+	}
+	if recv := fn.Signature.Recv(); recv != nil {
+		// types with a native model must not fall back to their (unsafe) source
+		switch recv.Type().String() {
+		case "*strings.Builder", "*math/big.Int", "*regexp.Regexp", "*sync.Map", "*encoding/json.Decoder", "*sync.Once", "*sync.Pool":
+			abortf("unsupported: %s has no native model", name)
+		}
 	}
 	in.depth++
 	if in.depth > 5000 {
